@@ -502,6 +502,17 @@ impl Mp4Track {
 
             let first_sample_in_chunk = sample_id - (sample_id - first_sample) % samples_per_chunk;
 
+            let overflow = Error::InvalidData("attempt to calculate sample offset with overflow");
+            let stsz = &self.trak.mdia.minf.stbl.stsz;
+            if stsz.sample_size > 0 {
+                // constant sample size: no need to walk the samples of the chunk
+                // (samples_per_chunk comes from the file and can be 2^32 - 1)
+                let before = (sample_id - first_sample_in_chunk) as u64;
+                return before
+                    .checked_mul(stsz.sample_size as u64)
+                    .and_then(|n| chunk_offset.checked_add(n))
+                    .ok_or(overflow);
+            }
             let mut sample_offset = chunk_offset;
             for i in first_sample_in_chunk..sample_id {
                 sample_offset = sample_offset
